@@ -703,6 +703,10 @@ class Hostile(UperBase):
     def oracle(self, req, ans):
         if ans in ("panic", "abort", "hang") or "PANIC" in ans:
             return "decoder panicked/aborted on untrusted input"
+        if ans.startswith("beyond-differs"):
+            # harness/src/uper.rs decodes the declared bits twice: in a slice that ends with them (zero
+            # padding) and in a longer slice with one-bits behind the declared length
+            return "the result depends on bits behind the declared bit length: " + ans[:200]
         if ans.startswith("ok "):
             bits = req.rsplit(" ", 1)[1]
             n = 0 if bits == "-" else len(bits)
